@@ -60,7 +60,12 @@ class Box(AbstractSpace[Float[Array, " ..."], None]):
         return self.low.shape
 
     def canonical(self) -> Float[Array, " ..."]:
-        return (self.low + self.high) / 2
+        bounded = jnp.isfinite(self.low) & jnp.isfinite(self.high)
+        return jnp.where(
+            bounded,
+            (self.low + self.high) / 2,
+            jnp.clip(jnp.zeros_like(self.low), self.low, self.high),
+        )
 
     def sample(self, *, key: Key[Array, ""], mask: None = None) -> Float[Array, " ..."]:
         bounded_key, unbounded_key, upper_bounded_key, lower_bounded_key = jr.split(
